@@ -1,5 +1,6 @@
 From Coq Require Import ZArith List Bool.
-From RV Require Import Base.Wire Tool.Libs.
+From Coq Require Import QArith.
+From RV Require Import Base.Wire Tool.Libs Tool.LibObjs.
 Import ListNotations.
 Open Scope Z_scope.
 
@@ -53,8 +54,114 @@ Definition enc_header (h : header) : wv :=
    (0 required headers includes instantiated servo_objs lcd_objs guard agree servos_ok lcds_ok names_ok)
    lcd_objs = ((i2c name binding_index) ...); names_ok = no LCD name bound to both interfaces (a
    classifier of the region the repaired finding used to exclude, not part of the guard) *)
+(* ---------------------------------------------------------------- items with arguments (case 1)
+   val:   () None | (0 z) int | (1 text) C expression
+   pulse: (0 z) | (1 text) | (2 (num den)) float
+   item:  (0 name pin minp maxp) ServoDecl
+          | (1 name i2c cols rows rs en d4 d5 d6 d7 rw backlight addr) LCDDecl
+          | (3) other decl | (4) plain | (5 (body ...)) if | (6 body) while | (7 body) for
+          | (8 (body ...)) try | (9 name) LCD command emitting one line *)
+Definition dec_val (v : wv) : option val :=
+  match v with
+  | WL [] => Some VNone
+  | WL [WI 0; WI z] => Some (VInt z)
+  | WL [WI 1; t] => option_map VText (un_text t)
+  | _ => None
+  end.
+
+Definition dec_pulse (v : wv) : option pulse :=
+  match v with
+  | WL [WI 0; WI z] => Some (PInt z)
+  | WL [WI 1; t] => option_map PText (un_text t)
+  | WL [WI 2; q] => option_map PFloat (un_q q)
+  | _ => None
+  end.
+
+Fixpoint dec_vals (l : list wv) : option (list val) :=
+  match l with
+  | [] => Some []
+  | x :: r => match dec_val x, dec_vals r with Some n, Some ns => Some (n :: ns) | _, _ => None end
+  end.
+
+Definition dec_lcd (n : wv) (i2c : wv) (fields : list wv) : option lcdd :=
+  match un_text n, un_bool i2c, dec_vals fields with
+  | Some n', Some b, Some [cols; rows; rs; en; d4; d5; d6; d7; rw; bl; addr] =>
+      Some (mkLcd n' b cols rows rs en d4 d5 d6 d7 rw bl addr)
+  | _, _, _ => None
+  end.
+
+Fixpoint dec_item (v : wv) : option item :=
+  let fix decs (l : list wv) : option (list item) :=
+    match l with
+    | [] => Some []
+    | x :: r => match dec_item x, decs r with Some n, Some ns => Some (n :: ns) | _, _ => None end
+    end in
+  let fix decss (l : list wv) : option (list (list item)) :=
+    match l with
+    | [] => Some []
+    | WL b :: r => match decs b, decss r with Some n, Some ns => Some (n :: ns) | _, _ => None end
+    | _ => None
+    end in
+  match v with
+  | WL [WI 0; n; pin; mn; mx] =>
+      match un_text n, dec_val pin, dec_pulse mn, dec_pulse mx with
+      | Some n', Some p, Some a, Some b => Some (IServo (mkServo n' p a b))
+      | _, _, _, _ => None
+      end
+  | WL (WI 1 :: n :: i2c :: fields) => option_map ILcd (dec_lcd n i2c fields)
+  | WL [WI 3] => Some IOther
+  | WL [WI 4] => Some IPlain
+  | WL [WI 5; WL bs] => option_map IBlock (decss bs)
+  | WL [WI 6; WL b] => option_map (fun x => IBlock [x]) (decs b)
+  | WL [WI 7; WL b] => option_map (fun x => IBlock [x]) (decs b)
+  | WL [WI 8; WL bs] => option_map IBlock (decss bs)
+  | WL [WI 9; n] => option_map ICmd (un_text n)
+  | _ => None
+  end.
+
+Fixpoint dec_items (l : list wv) : option (list item) :=
+  match l with
+  | [] => Some []
+  | x :: r => match dec_item x, dec_items r with Some n, Some ns => Some (n :: ns) | _, _ => None end
+  end.
+
+Fixpoint dec_ibodies (l : list wv) : option (list (list item)) :=
+  match l with
+  | [] => Some []
+  | WL b :: r => match dec_items b, dec_ibodies r with Some n, Some ns => Some (n :: ns) | _, _ => None end
+  | _ => None
+  end.
+
+Definition enc_recvs (l : list (text * text)) : wv :=
+  WL (map (fun r => WL [wtext (fst r); wtext (snd r)]) l).
+
+(* case (1 setup loop functions globals) ->
+   (0 lib_globals lib_init recv_setup recv_loop recv_functions spec_setup spec_loop
+      lcds_at_top cmds_follow_decl headers_of_erased lcd_defs lib_sketch)
+   lcd_defs = ((i2c name index object_identifier) ...) *)
+Definition run_objs (s l : list wv) (fs : list wv) (g : list wv) : wv :=
+  match dec_items s, dec_items l, dec_ibodies fs, dec_items g with
+  | Some s', Some l', Some fs', Some g' =>
+      let p := mkDProg s' l' fs' g' in
+      let '(rs, rl, rf) := resolve p in
+      let names := rev (top_lcd_names s') in
+      wok [ WL (map wtext (lib_globals p));
+            WL (map wtext (lib_init p));
+            enc_recvs rs; enc_recvs rl; WL (map enc_recvs rf);
+            enc_recvs (spec_items [] s');
+            enc_recvs (flat_map (spec_item names) l');
+            wbool (lcds_at_top p);
+            wbool (cmds_follow_decl [] s');
+            WL (map enc_header (headers (erase_prog p)));
+            WL (map (fun dk => WL [wbool (l_i2c (fst dk)); wtext (l_name (fst dk)); WI (snd dk);
+                                   wtext (lcd_ident (snd dk) (l_name (fst dk)))]) (lcd_defs p));
+            WL (map wtext (lib_sketch p)) ]
+  | _, _, _, _ => wbad
+  end.
+
 Definition run (v : wv) : wv :=
   match v with
+  | WL [WI 1; WL s; WL l; WL fs; WL g] => run_objs s l fs g
   | WL [WI 0; WL s; WL l; WL fs; WL g] =>
       match dec_nodes s, dec_nodes l, dec_bodies fs, dec_nodes g with
       | Some s', Some l', Some fs', Some g' =>
